@@ -266,6 +266,18 @@ def replay(pid, path):
         print("replay of %s: property %s holds on the current tree" % (path, pid))
         return 0
     eng = rp.get("engine")
+    if eng == "kcompose":
+        from .main import Result
+        res = Result()
+        engine_kcompose.run(pid, "quick", data.get("seed", 0), res, only=[dict(prog=rp["prog"], ins=rp["ins"], outs=rp["outs"])])
+        bad = [h for h in res.hits if h["prop"] == pid]
+        if bad:
+            print("VIOLATION property=%s replay=%s" % (pid, path))
+            for b in bad[:5]:
+                print("  " + b["desc"][:300])
+            return 1
+        print("replay of %s: property %s holds on the current tree" % (path, pid))
+        return 0
     if eng in ("kgraph", "kvalue", "khist"):
         from .main import Result
         res = Result()
@@ -325,3 +337,10 @@ for _p in ("C11", "C15", "C18"):
     REGISTRY[_p] = dict(engines=[engine_khist.run], rule=HIST_RULE, assumptions=HIST_ASSUME)
 REGISTRY["C03"]["engines"] = [engine_ksched, engine_khist.run]
 REGISTRY["C03"]["rule"] = SCHED_RULE + " || " + HIST_RULE
+
+from . import engine_kcompose  # noqa: E402
+
+REGISTRY["C19"] = dict(engines=[engine_kcompose.run], rule=("K-compose cases: random describing functions (C01 fragment without nesting, with flags); random input / output node subsets; compose() vs Compose.v (node set, ValueError conditions), "
+                       "the composed DAG run on supplied values vs a plain-Python evaluation with the input statements overridden, the embedding relation (Iso.v) checked in coqc on the composed table, and the original DAG's value / table before and after; "
+                       "distinct = hash of (program, inputs, outputs); non-trivial = at least 3 statements and at least one input"),
+                       assumptions=VALUE_ASSUME)
